@@ -47,7 +47,11 @@ def build_model(shape_edges, nprov, seed):
                     ename = f"{k}{i}x{seed % 997}"
                     if rng.random() < 0.3:
                         ename = ename.capitalize()
-                    m["entities"].append({"name": ename, "kind": k, "access": acc, "how": how, "module": name})
+                    ent = {"name": ename, "kind": k, "access": acc, "how": how, "module": name}
+                    # PROTECTED restricts definition, not accessibility: a public protected variable is imported like any other
+                    if k == "var" and ((acc is None and m["default"] == "public") or (acc == "public" and how == "attr")) and rng.random() < 0.5:
+                        ent["protected"] = True
+                    m["entities"].append(ent)
         mods.append(m)
     for (i, j) in sorted(shape_edges):
         mods[j]["uses"].append({"target": i})
@@ -203,7 +207,7 @@ def render_entity(e, m, lines, contains, stmts):
     if k == "type":
         lines += [f"type{a} :: {n}", "integer :: f", f"end type {n}"]
     elif k == "var":
-        lines += [f"integer{a} :: {n} = 0"]
+        lines += [f"integer{a}{', protected' if e.get('protected') else ''} :: {n} = 0"]
     elif k == "sub":
         contains += [f"subroutine {n}()", f"end subroutine {n}"]
     elif k == "func":
@@ -325,16 +329,6 @@ def ent_id(obj):
 
 
 def observe_case(item):
-    import ford.fortran_project as fp
-
-    order = item["order"]
-    orig = fp.find_all_files
-
-    def ordered(settings):
-        files = sorted(orig(settings), key=lambda p: p.name)
-        return [files[i] for i in order]
-
-    fp.find_all_files = ordered
     # recorder: which object each call chain of a probe procedure was resolved to
     import ford.sourceform as sf
 
@@ -380,8 +374,10 @@ def case(arg):
     try:
         root = os.path.join(base, "src")
         os.makedirs(root)
-        for n, t in files.items():
-            open(os.path.join(root, n), "w").write(t)
+        # the order in which FORD parses the files is the sorted order of their paths: the permutation is injected through the file names
+        for rank, idx in enumerate(order):
+            n = sorted(files)[idx]
+            open(os.path.join(root, f"f{rank}_{n}"), "w").write(files[n])
         st, r = core.run_alone(observe_case, {"root": root, "order": order}, timeout=120)
     finally:
         shutil.rmtree(base, ignore_errors=True)
@@ -443,6 +439,114 @@ def case(arg):
                        "accessible_in_consumer": {n: expected_id(n) for n in names if acc.get(n)}}}
 
 
+def observe_same_text(item):
+    cap = observe.Captured()
+    project, cap = observe.parse_and_correlate([item["root"]], cap=cap)
+    res = {}
+    scopes = []
+    for m in project.modules:
+        scopes.append(m)
+        scopes += list(m.subroutines)
+    for p in scopes:
+        if not p.name.lower().startswith(("probe_", "cprobe")):
+            continue
+        r = {}
+        for v in p.variables:
+            if v.name.lower() == "pv" and v.proto:
+                r["type"] = ent_id(v.proto[0])
+        for nl in getattr(p, "namelists", []):
+            r["var"] = [ent_id(x) for x in nl.variables]
+        r["calls"] = sorted(ent_id(c) if not isinstance(c, str) else "unresolved:" + c for c in getattr(p, "calls", []))
+        res[p.name.lower()] = r
+    return {"res": res, "diags": [w for w in cap.warnings if "Error parsing" in w]}
+
+
+def case_same_text(seed):
+    """Two modules that export equally named entities are used, in different scopes, with textually identical ONLY lists."""
+    rng = random.Random(seed)
+    S = seed % 9973
+    ents = [("type", "st_t"), ("var", "st_n"), ("sub", "st_s"), ("func", "st_f")]
+    pick = [e for e in ents if rng.random() < 0.8] or ents[:2]
+    items = []
+    for k, n in pick:
+        items.append(f"l{n} => {n}" if (k in ("func", "sub") and rng.random() < 0.4) else n)
+    spec = rng.choice([", only: ", ",only:", ", ONLY : "]) + rng.choice([", ", ","]).join(items)
+    provs = [f"ta{S}", f"tb{S}"]
+    files = {}
+    for pn in provs:
+        files[pn + ".f90"] = "\n".join([f"module {pn}", "implicit none", "type :: st_t", "integer :: a", "end type st_t", "integer :: st_n = 1", "contains",
+                                        "subroutine st_s()", "end subroutine st_s", "integer function st_f(i)", "integer, intent(in) :: i", "st_f = i", "end function st_f",
+                                        f"end module {pn}"]) + "\n"
+
+    def body(pn):
+        L = []
+        local = {n: (it.split(" => ")[0] if " => " in it else n) for (k, n), it in zip(pick, items)}
+        for k, n in pick:
+            if k == "type":
+                L.append(f"type({local[n]}) :: pv")
+            elif k == "var":
+                L.append(f"namelist /pnl/ {local[n]}")
+        for k, n in pick:
+            if k == "sub":
+                L.append(f"call {local[n]}()")
+            elif k == "func":
+                L.append(f"print *, {local[n]}(1)")
+        return L
+
+    where = rng.choice(["two_procedures", "two_modules", "module_and_procedure"])
+    first, second = (provs if rng.random() < 0.5 else provs[::-1])
+    exp = {}
+    if where == "two_procedures":
+        L = [f"module tc{S}", "implicit none", "contains"]
+        for tag, pn in (("a", first), ("b", second)):
+            L += [f"subroutine probe_{tag}()", f"use {pn}{spec}"] + body(pn) + [f"end subroutine probe_{tag}"]
+            exp[f"probe_{tag}"] = pn
+        L.append(f"end module tc{S}")
+        files[f"tc{S}.f90"] = "\n".join(L) + "\n"
+    elif where == "two_modules":
+        for tag, pn in (("a", first), ("b", second)):
+            L = [f"module tc{tag}{S}", "implicit none", "contains", f"subroutine probe_{tag}()", f"use {pn}{spec}"] + body(pn) + [f"end subroutine probe_{tag}", f"end module tc{tag}{S}"]
+            files[f"tc{tag}{S}.f90"] = "\n".join(L) + "\n"
+            exp[f"probe_{tag}"] = pn
+    else:
+        L = [f"module cprobe{S}", f"use {first}{spec}", "implicit none"] + [x for x in body(first) if x.startswith(("type(", "namelist"))] + ["contains",
+             "subroutine probe_b()", f"use {second}{spec}"] + body(second) + ["end subroutine probe_b", f"end module cprobe{S}"]
+        files[f"cprobe{S}.f90"] = "\n".join(L) + "\n"
+        exp[f"cprobe{S}"] = first
+        exp["probe_b"] = second
+    base = core.mktemp("vf_c06s_")
+    try:
+        root = os.path.join(base, "src")
+        os.makedirs(root)
+        for n, t in files.items():
+            open(os.path.join(root, n), "w").write(t)
+        st, r = core.run_alone(observe_same_text, {"root": root}, timeout=120)
+    finally:
+        shutil.rmtree(base, ignore_errors=True)
+    if st != "ok":
+        return {"viol": [{"kf": {"kind": "harness_" + st}, "w": {"detail": str(r)[-500:], "seed": seed, "files": files}}], "n": 0}
+    viol = []
+    n = 0
+    for scope, pn in exp.items():
+        got = r["res"].get(scope.lower(), {})
+        for k, nm in pick:
+            want = f"{pn}::{nm}"
+            if k == "type":
+                obs = got.get("type", "absent")
+            elif k == "var":
+                obs = (got.get("var") or ["absent"])[0]
+            else:
+                if scope.startswith("cprobe"):
+                    continue
+                obs = want if want in got.get("calls", []) else "/".join(c for c in got.get("calls", []) if c.endswith("::" + nm)) or "absent"
+            n += 1
+            if obs != want:
+                viol.append({"kf": {"kind": "wrong_entity" if "::" in obs else "accessible_not_resolved", "entity_kind": k, "consumer_use_form": "identical_only_text_for_two_modules",
+                                    "probe_where": where, "explained_by_per_statement_use_semantics": False},
+                             "w": {"scope": scope, "name": nm, "expected": want, "observed": obs, "seed": seed, "files": files}})
+    return {"viol": viol, "n": n}
+
+
 def all_shapes(nprov):
     nodes = nprov + 1
     pairs = [(i, j) for j in range(nodes) for i in range(j)]
@@ -466,14 +570,16 @@ def main():
         assumptions=[
             "vf.checks.c06.imports/exports implement F2008 11.2.2 (ONLY, rename, several USE statements, re-export under default/explicit PUBLIC)",
             "probes of inaccessible names are references to undeclared names; FORD must leave them unresolved",
-            "entity names are unique across modules (no ambiguity through two paths)",
+            "entity names are unique across modules (no ambiguity through two paths), except in the separate cases where two modules exporting equal names are used "
+            "in different scopes with textually identical ONLY lists",
+            "file order is injected through the file names (FORD parses source files in sorted path order)",
         ],
     )
     rp = core.replay_arg()
     if rp:
         w = json.load(open(rp))
         a = w["witness"]["arg"]
-        r = case((a[0], frozenset(tuple(e) for e in a[1]), a[2], a[3], a[4], tuple(a[5])))
+        r = case_same_text(a[1]) if a[0] == "same_text" else case((a[0], frozenset(tuple(e) for e in a[1]), a[2], a[3], a[4], tuple(a[5])))
         known = core.load_known(PID)
         bad = [v for v in r["viol"] if core.match_known(known, v["kf"]) is None]
         print("replay:", "VIOLATION" if bad else "held")
@@ -511,11 +617,21 @@ def main():
         for v in r["viol"]:
             v["w"]["arg"] = [a[0], sorted(a[1]), a[2], a[3], a[4], list(a[5])]
             run.violation(v["kf"], v["w"])
+    seeds2 = [run.seed * 7919 + i for i in range(400 if thorough else 60)]
+    for sd, (st, r) in zip(seeds2, core.fork_map(case_same_text, seeds2, per_case_fork=False, case_timeout=300)):
+        if st != "ok":
+            run.inconc(f"same_text {st}: {str(r)[-300:]}")
+            continue
+        run.case(key=f"same_text{sd}", nontrivial=r["n"] >= 2)
+        run.count("probes_compared_identical_only_text", r["n"])
+        for v in r["viol"]:
+            v["w"]["arg"] = ["same_text", sd]
+            run.violation(v["kf"], v["w"])
     run.extra["module_graph_shapes"] = len(shapes_seen)
     run.extra["exhaustive"] = False
     run.extra["exhaustive_part"] = "all DAG shapes over <=3 provider modules + consumer (72 shapes); decoration and file orders sampled" + (" (all permutations in thorough)" if thorough else "")
     run.max_samples = 2
-    run.finish(floors={"evaluations": 200, "distinct_nontrivial": 60, "probes_compared": 2000, "probes_of_inaccessible_names": 300, "use_forms": 6, "file_orders": 10})
+    run.finish(floors={"evaluations": 200, "distinct_nontrivial": 60, "probes_compared": 2000, "probes_of_inaccessible_names": 300, "use_forms": 6, "file_orders": 10, "probes_compared_identical_only_text": 100})
 
 
 if __name__ == "__main__":
